@@ -15,21 +15,21 @@ import (
 
 // Frame is one injected frame.
 type Frame struct {
-	ID      int
-	Data    []byte
-	Err     error // deliver a read error instead of data
-	Taken   bool  // handed to the responder
-	Done    bool  // the responder came back for the next frame (or the conn was closed)
-	Replies [][]byte
+	ID          int
+	Data        []byte
+	Err         error // deliver a read error instead of data
+	Taken       bool  // handed to the responder
+	Done        bool  // the responder came back for the next frame (or the conn was closed)
+	Replies     [][]byte
 	WriteFailed bool // a write made while handling this frame failed (fault)
 }
 
 // Written is one frame written by the node.
 type Written struct {
-	Data     []byte
-	During   int // ID of the frame being handled (0: none)
-	At       time.Duration
-	Seq      int
+	Data   []byte
+	During int // ID of the frame being handled (0: none)
+	At     time.Duration
+	Seq    int
 }
 
 // Conn is the PacketConn of one interface.
